@@ -117,6 +117,10 @@ def decode_shape(prefixes, six):
     return info
 
 
+class _StyleTuple(tuple):
+    """A tuple subclass instance is a sequence of connectors like any other."""
+
+
 def run_case(case, res):
     from nutree import Tree
     from nutree.common import CONNECTORS
@@ -124,7 +128,11 @@ def run_case(case, res):
 
     f = gen.decode(case["f"])
     typed = case["cls"] == "typed"
-    t = (TypedTree if typed else Tree)("TITLE")
+    if case.get("ext"):
+        X = gen.ext_classes()  # other DEFAULT_CONNECTOR_STYLE, node class of its own
+        t = (X["XTypedTree"] if typed else X["XTree"])("TITLE")
+    else:
+        t = (TypedTree if typed else Tree)("TITLE")
     if case.get("lab") == "clones":
         # the same data below different parents, also below one of its own occurrences (a clone inside its clone's branch)
         labs = gen.clone_labeling(rng_for(case.get("pseed", 0), "c16-clones", case["f"]), f, ["a", "b", "c"]) or [f"n{i}" for i in range(gen.size(f))]
@@ -203,20 +211,25 @@ def run_case(case, res):
     try:
         with case_deadline(60):
             for sname, style in styles + [("list", None), ("default", None)]:
-                for rk in ("str", "call"):
+                for rk in ("str", "call", "blank"):
                     for join in ("\n", ", "):
-                        rep = ("<{node.data_id}>" if eq else "<{node.data}>") if rk == "str" else tok
+                        if rk == "blank" and (join != "\n" or sname in ("list", "custom4w")):
+                            continue
+                        # "blank": every node renders as the empty string - a line then consists of its prefix alone
+                        rep = ("<{node.data_id}>" if eq else "<{node.data}>") if rk == "str" else tok if rk == "call" else (lambda node: "")
+                        tokf = tok if rk != "blank" else (lambda n_: "")
                         kw = {"repr": rep, "join": join}
                         if sname == "list":
                             kw["style"] = "".join(["li", "st"])  # an equal string object, not the interned literal
                         elif sname != "default":
-                            kw["style"] = "".join([sname[:2], sname[2:]]) if not sname.startswith("custom") else (tuple(style) if rk == "str" else list(style))
+                            kw["style"] = "".join([sname[:2], sname[2:]]) if not sname.startswith("custom") else (
+                                tuple(style) if rk == "str" else list(style) if rk == "call" else _StyleTuple(style))  # a tuple subclass (named tuples are)
                         eff_style = style if style is not None else list(CONNECTORS[t.DEFAULT_CONNECTOR_STYLE])
                         title_line = None
                         if start == -1:
                             if variant == "default":
                                 has_title = sname != "list"
-                                title_line = "Tree<'TITLE'>" if not typed else "TypedTree<'TITLE'>"
+                                title_line = f"{type(t).__name__}<'TITLE'>"
                                 if not has_title:
                                     title_line = None
                             elif variant == "notitle":
@@ -230,16 +243,16 @@ def run_case(case, res):
                             if sname == "list":
                                 exp = [("", tok(n)) for n in rendered]
                             elif has_title:
-                                exp = expected_with_virtual_root(top, eff_style, tok)
+                                exp = expected_with_virtual_root(top, eff_style, tokf)
                             else:
-                                exp = expected_lines(None, eff_style, tok, top)
+                                exp = expected_lines(None, eff_style, tokf, top)
                         else:
                             kw["add_self"] = variant == "self"
                             got = attempt(lambda: nodes[start].format(**kw))
                             if sname == "list":
                                 exp = [("", tok(n)) for n in rendered]
                             else:
-                                exp = expected_lines(None, eff_style, tok, level0)
+                                exp = expected_lines(None, eff_style, tokf, level0)
                         res.count("format_calls")
                         res.count(f"style:{sname}")
                         exp_lines = ([title_line] if title_line is not None else []) + [p + r for p, r in exp]
@@ -258,7 +271,7 @@ def run_case(case, res):
                             bad.append(f"format(style={sname}, repr={rk}, join={join!r}, {variant}) start={start}: got {got_lines!r}, expected {exp_lines!r}")
                             continue
                         # decode the shape from prefixes alone for single-letter custom styles
-                        if sname in ("custom4", "custom6") and join == "\n":
+                        if sname in ("custom4", "custom6") and join == "\n" and rk != "blank":
                             body = got_lines[1:] if title_line is not None else got_lines
                             prefixes = [ln[: ln.index("<")] for ln in body]
                             info = decode_shape(prefixes, sname == "custom6")
@@ -403,6 +416,8 @@ def run_shard(spec, res):
                                 run_case({"cls": cls, "f": gen.code(f), "start": start, "variant": v, "lab": "eqsib"}, res)
                             if n >= 3 and n <= 6:
                                 run_case({"cls": cls, "f": gen.code(f), "start": start, "variant": v, "lab": "clones", "pseed": k % 3}, res)
+                            if 2 <= n <= 5 and (k + start) % 3 == 0:
+                                run_case({"cls": cls, "f": gen.code(f), "start": start, "variant": v, "ext": True}, res)
                             if 1 <= n <= 5 and (k // NSHARDS + start) % 2 == 0:
                                 run_case({"cls": cls, "f": gen.code(f), "start": start, "variant": v, "prelude": True, "pseed": k}, res)
                 if res.expired():
@@ -417,7 +432,7 @@ def run_shard(spec, res):
             for start in [-1] + rng.sample(range(n), min(n, 4)):
                 for v in variants_for(start):
                     run_case({"cls": rng.choice(["plain", "typed"]), "f": gen.code(f), "start": start, "variant": v,
-                              "lab": rng.choice(["uniq", "eqsib", "clones", "clones"]), "prelude": rng.random() < 0.4, "pseed": rng.randrange(10**6)}, res)
+                              "lab": rng.choice(["uniq", "eqsib", "clones", "clones"]), "ext": rng.random() < 0.3, "prelude": rng.random() < 0.4, "pseed": rng.randrange(10**6)}, res)
             if res.expired():
                 break
 
